@@ -226,7 +226,10 @@ let do_replay id =
   let nd = next_int () in let des = times nd tab in
   let nm = next_int () in let mods = times nm next_bytes in
   let modified t1 _ = Stdlib.List.mem t1.rt_name mods in
-  match planner_plan modified q mode dev user objs cur des with
+  let is_ck = String.length id > 3 && String.sub id (String.length id - 3) 3 = ".ck" in
+  let res = if is_ck then planner_checkpoint modified q mode dev objs des
+            else planner_plan modified q mode dev user objs cur des in
+  match res with
   | PNoPlan -> Printf.printf "%s noplan\n" id
   | PPlanned -> Printf.printf "%s planned\n" id
   | PRejected r -> Printf.printf "%s rejected:%s\n" id (show_scope r)
